@@ -146,9 +146,9 @@ def rule_gauge(model: Model):
 def check(model: Model, tier: str):
     obs = []
     obs += rule_drain(model)
-    obs += c01.allowance_sites(model, "_extras.permute", {"d": Fraction(-1)})
+    obs += c01.allowance_sites(model, "_extras.permute", {"re:" + c01.ORDER: Fraction(-1)})
     # any direct rank selection inside reshape must use a relative allowance shared among the dfin-1 bonds of the result
-    obs += c01.allowance_sites(model, "_extras.reshape", {"(dfin - 1)": Fraction(-1, 2)})
+    obs += c01.allowance_sites(model, "_extras.reshape", {"re:\\(len\\(shape\\) - 1\\)": Fraction(-1, 2)})
     obs += c01.eps_flow(model, "_extras.reshape", "torchtt._decomposition.to_tt")
     obs += c01.eps_flow(model, "_extras.reshape", "torchtt._decomposition.mat_to_tt")
     # the split tolerance is shared among the dfin-1 bonds of the result
@@ -164,7 +164,7 @@ def check(model: Model, tier: str):
             if ms is None:
                 obs.append(Ob("E4-ALLOWANCE", k, ERROR, model.where(f, call), norm(call)[:80], "eps argument not modelled"))
                 continue
-            ok = all(any(m.exps.get(a, 0) <= Fraction(-1, 2) for a in ("(dfin - 1)", "dfin")) for m in ms)
+            ok = all(any(m.exps.get(a, 0) <= Fraction(-1, 2) for a in ("(len(shape) - 1)", "len(shape)")) for m in ms)
             obs.append(Ob("E4-ALLOWANCE", k, OK if ok else VIOLATED, model.where(f, call), norm(arg),
                           " | ".join(m.show() for m in ms) if ok else
                           f"split tolerance {[m.show() for m in ms]} is not divided among the dfin-1 bonds of the result (need exponent <= -1/2)"))
